@@ -78,6 +78,11 @@ func Parse(filename string, data []byte) (*File, error) {
 				return corrupt()
 			}
 			ctrName := DecodeStack(string(ename))
+			if _, ok := f.Count[ctrName]; ok {
+				// The map is keyed by the decoded name: a second record with
+				// the same decoded name is a duplicate or a cycle in the chain.
+				return corrupt()
+			}
 			f.Count[ctrName] = v.Load()
 			off = next
 		}
